@@ -104,7 +104,7 @@ def run_case(case):
         cnt["shapes_enumerated"] += 1
         for rep in range(case["reps"]):
             variant = ["consistent", "consistent", "inconsistent", "over100"][rep % 4]
-            m0v = [None, "consistent", None, "inconsistent", "consistent"][(rep // 4 + rep) % 5]
+            m0v = [None, "consistent", None, "inconsistent", "consistent"][(rep // 4) % 5]  # independent of the variant: all 20 combinations
             b = build(shape, rng, variant, m0v)
             if b is None:
                 continue
@@ -128,10 +128,20 @@ def run_case(case):
             kinds = {s[0] if s else "none" for s in specs}
             if len(specs) >= 2 and len(kinds) >= 2:
                 nt.add(label)
+            cnt[f"combo_{variant}_{m0v}"] += 1
             if verdict == "contra":
                 cnt["contra_checked"] += 1
                 if S is not None and S.generable:
                     viol.append({"cls": "c12.contradiction-accepted", "msg": f"{label} is contradictory ({data}) but is accepted and generable with system mass {safe(lambda: S.system_mass)}", "text": label})
+                elif S is not None:
+                    # "contradictory or over-100 % specifications are rejected": an object that merely reports 'not generable' is not a rejection.
+                    # The library sums percentages only when all or all but one component carry one, and infers masses for three shapes only.
+                    nP = sum(1 for x in specs if x and x[0] == "pct")
+                    blind = rm.library_inference_class(specs, M0) == 0 and nP < len(specs) - 1
+                    cnt["contra_not_raised"] += 1
+                    viol.append({"cls": "c12.contradiction-not-rejected" + (".shape-outside-inference-classes" if blind else ""), "msg": f"{label} is contradictory ({data}) but the constructor returned an object (generable = False) instead of raising", "text": label})
+                else:
+                    cnt["contra_raised"] += 1
                 continue
             if verdict == "under":
                 cnt["under_checked"] += 1
